@@ -30,6 +30,13 @@ def run(report, db, tier):
     containment(report, db, S, M)
     chain(report, db, S, M)
     registration(report, db, S, M)
+    # the reactor's handler goes first (R14.0) and may claim an exception:
+    # the only one that does claims exactly EOFError during the status probe
+    from .. import shared
+    R0e = report.rule('R14.0e', 'what a reactor\'s own handler swallows: '
+                      'exactly EOFError, in the status probe, by falling '
+                      'back to the default version')
+    shared.eof_fallback_ps(report, R0e, db, shared.summariser(db, cg))
 
 
 def sy(n):
